@@ -582,6 +582,8 @@ def parse_spec(path, into=None):
             for p in parts[2:]:
                 if p.startswith('iter='):
                     cur.loops[k]['iter'] = p[5:]
+                if p == 'clone_elems':
+                    cur.loops[k]['clone_elems'] = True
             mode, target = ('loop', k), None
             continue
         if st.startswith('closure ') and mode != 'body':
@@ -607,6 +609,18 @@ def parse_spec(path, into=None):
         if st.startswith('%opt ') and mode != 'body':
             k, _, v = st[5:].partition('=')
             cur.opts[k.strip()] = v.strip()
+            continue
+        if st in ('loop_begin', 'loop_end') and mode and mode[0] in ('loop', 'looplines'):
+            flush()
+            k_ = mode[1]
+            cur.loops[k_].setdefault(st, [])
+            mode, target = ('looplines', k_, st), None
+            continue
+        if mode and mode[0] == 'looplines':
+            if st == 'end':
+                mode = ('loop', mode[1])
+            else:
+                cur.loops[mode[1]][mode[2]].append(line)
             continue
         if st == 'body':
             flush()
